@@ -74,6 +74,7 @@ theorem unAny_ref {w : World} {hc : HCfg} {b Ks n : Nat} {rec : Rec} (cx : Ctx w
     | enumM e m => exact leafProg_ref w n g k (by simp only [planUnAny]) (unAny_enum ..)
     | coll => simp [isLeafObj] at hl
     | dict => simp [isLeafObj] at hl
+    | mdict => simp [isLeafObj] at hl
     | inst => simp [isLeafObj] at hl
     | «opaque» => simp [isLeafObj] at hl
     | _ => exact ident_ref cx.hrec w n g hv hd (by simp only [planUnAny]) (by simp only [unAny])
